@@ -3,7 +3,8 @@ From Signalo Require Import Check.Common Model.Pipes.
 Local Open Scope Z_scope.
 (* Stage library of the harness (real signalo types wrapped in a logging probe):
    filters  0 Integrate<i64>  1 Differentiate<i64>  2 Delay<i64,2>  3 x -> 2x+1
-   source   4 FromIter(list)  (state = remaining items)
+   source   4 scripted source (state = remaining script; the value -999 stands for a `None` answer, so a
+              source may report the end and deliver again later; an exhausted script answers None)
    sinks    5 Integrate sink (sum)  6 Max sink  7 Collect
    The world is the call log [(stage id, input)] (sources log -1). Stage state = list Z. *)
 Definition Id := (nat * nat)%type.            (* (kind, identity) *)
@@ -18,7 +19,8 @@ Definition fstep (i : Id) (w : Wd) (s : St) (x : Z) : Wd * St * Z :=
   | _ => (w', s, 2 * x + 1)
   end.
 Definition sstep (i : Id) (w : Wd) (s : St) : Wd * St * option Z :=
-  let w' := w ++ [(snd i, -1)] in match s with [] => (w', [], None) | x :: r => (w', r, Some x) end.
+  let w' := w ++ [(snd i, -1)] in
+  match s with [] => (w', [], None) | x :: r => if x =? -999 then (w', r, None) else (w', r, Some x) end.
 Definition kstep (i : Id) (w : Wd) (s : St) (x : Z) : Wd * St :=
   let w' := w ++ [(snd i, x)] in
   match fst i with
